@@ -31,6 +31,7 @@ type rtCfg struct {
 	Reader     string
 	CloseEarly bool
 	Sticky     int
+	PCT        int
 	TimerLate  int
 	LateMax    time.Duration
 	Starve     int
@@ -40,8 +41,8 @@ type rtCfg struct {
 }
 
 func (c rtCfg) String() string {
-	return fmt.Sprintf("retain=%d P=%v senders=%dx%d think=%v werr=%d busy=%d storm=%v lost=%d inbound=%d reader=%s closeearly=%v sticky=%d tlate=%d starve=%d/%v",
-		c.Retain, c.P, c.Senders, c.SendsEach, c.Think, c.WriteErr, c.Busy, c.Storm, c.Lost, c.Inbound, c.Reader, c.CloseEarly, c.Sticky, c.TimerLate, c.Starve, c.StarveMax)
+	return fmt.Sprintf("retain=%d P=%v senders=%dx%d think=%v werr=%d busy=%d storm=%v lost=%d inbound=%d reader=%s closeearly=%v sticky=%d pct=%d tlate=%d starve=%d/%v",
+		c.Retain, c.P, c.Senders, c.SendsEach, c.Think, c.WriteErr, c.Busy, c.Storm, c.Lost, c.Inbound, c.Reader, c.CloseEarly, c.Sticky, c.PCT, c.TimerLate, c.Starve, c.StarveMax)
 }
 
 func drawRtCfg(e *Env) rtCfg {
@@ -53,6 +54,7 @@ func drawRtCfg(e *Env) rtCfg {
 	c.SendsEach = 1 + e.Choose("cfg.sends", 12)
 	c.Think = e.Choose("cfg.think", 2) == 1
 	c.Sticky = []int{600, 0, 850, 300}[e.Choose("cfg.sticky", 4)]
+	c.PCT = []int{0, 0, 0, 0, 2, 5}[e.Choose("cfg.pct", 6)] // priority-based scheduling in a third of the runs
 	c.Reader = []string{"ready", "stalled", "intermittent", "absent"}[e.Choose("cfg.reader", 4)]
 	c.MaxSteps = 40000
 	shape := e.Choose("cfg.shape", 10)
@@ -165,6 +167,7 @@ func runRouter(e *Env) {
 	e.Cfg("%s", c.String())
 	e.S.SetConfig(func(sc *simrt.Config) {
 		sc.StickyPermille = c.Sticky
+		sc.PCTDepth = c.PCT
 		sc.LatePermille = c.TimerLate
 		sc.LateMax = c.LateMax
 		sc.StarvePermille = c.Starve
